@@ -322,6 +322,10 @@ func l3DecoderCase(c *Ctx, id string, st *trie.SlimTrie, tc *TrieCase, spec *Enc
 		fmt.Fprintf(iw, "q %s G %s\n", hxs(q), s)
 		c.Or.Count("message-level GetID/Get queries")
 	}
+	// C04m: NewIter / ScanFrom / ScanFromTo recomputed by the model from the same message fields (MS lines, prop_c04m.go)
+	c04mL3Hook(c, st, tc)
+	// C18/C19: initLevels / Stat / String recomputed by the model from the same message fields (MT line)
+	c18mL3Hook(c, st, tc)
 }
 
 // ---- function level ---------------------------------------------------------
@@ -809,4 +813,26 @@ func init() {
 		c.Or.Extra["trie_cases"] = n
 		l3FnCases(c)
 	})
+}
+
+// ---- C18 / C19 over the message (MT line) -----------------------------------
+// c18mL3Hook is called at the end of l3DecoderCase: after the message block just written the
+// extracted StatMsg.minit_levels / mstat / mrender run on the REAL message fields; the
+// implementation side is the level table the instance holds (hook VerifLevels), the Stat()
+// fields and the parsed lines of String() (c19Observe / c19Obs.write of prop_c19.go).
+func c18mL3Hook(c *Ctx, st *trie.SlimTrie, tc *TrieCase) {
+	cw, iw := c.Cases(), c.Impl()
+	fmt.Fprintf(cw, "MT\n")
+	s, p := protect(func() string {
+		sx := st.Stat()
+		return fmt.Sprintf("t %s | %d %d %d", c18LevelsStr(st.VerifLevels()), sx.KeyCnt, sx.NodeCnt, sx.LevelCnt)
+	})
+	if p != "" {
+		s = "t PANIC"
+	}
+	fmt.Fprintf(iw, "%s\n", s)
+	ref := NewRef(tc)
+	texts, canon := c19WantVals(tc, ref)
+	c19Observe(st, texts).write(iw, canon)
+	c.Or.Count("message-level Stat/String blocks")
 }
